@@ -7,7 +7,7 @@ CFG = {
              "truncated after the load / already in error state) and by every pair of kinds, API-built and loaded from generated trees, x six pre-states of the target "
              "(absent, empty directory, a different larger UFO, nested junk, a plain file, the font's own source directory); valid fonts over the same pre-states; in-place "
              "histories (generated tree with data/ and images/ -> Font::load -> random edits of glyphs, lib, layers, store inserts/removes/gets -> save onto the source). "
-             "Targets that are symbolic links; rejected store inserts onto existing lazy keys; image files with upper/mixed-case or no extension. Recursive snapshot (path, kind, content hash) of the whole sandbox before and after; in-place saves are additionally checked against the files that were on disk at load time. non-trivial = a refusal kind applies or the save is in place; distinct by recipe"),
+             "Targets that are symbolic links; rejected store inserts onto existing lazy keys; image files with upper/mixed-case or no extension. Round 6: k store files deleted / replaced by a directory / truncated on disk after the load and before any access (one, two, all; data, images, both) saved elsewhere and in place; the same save retried once or twice after a refusal (error cached by the first attempt or by a get); in-place targets spelled as an alias of the load path (trailing separator, `..` detour, symlinked parent, relative); size classes of lazily read store files (0, 1, 4 KiB, 64 KiB + 1, 1 MiB + 1, 3 MiB, a large image; a 1 MiB + 1 file in four quick cases). Recursive snapshot (path, kind, content hash) of the whole sandbox before and after; in-place saves are additionally checked against the files that were on disk at load time. non-trivial = a refusal kind applies or the save is in place; distinct by recipe"),
     "exhaustive": {"quick": False, "thorough": False},
     "exhaustive_note": "all single refusal kinds and all pairs x all six pre-states x {API-built, loaded} are enumerated; fonts and edit histories around them are sampled",
     "trusted_base": COMMON_TRUST + [
